@@ -157,18 +157,6 @@ extern size_t g_heap_ra_size;
 #define VCOVER1(c) VCOVER(c)
 #endif
 
-/*
- * HP_SPLIT(v, stmt): execute stmt with v replaced by each constant 0 .. HP_MAXN (case split on a symbolic
- * index, so that the symbolic executor sees constant array indices; the union of the cases is all of v's
- * range, nothing is cut off: values above HP_MAXN fall into the last, unconstrained branch).
- */
-#define HP_SP_(c, v, stmt) if ((c) <= HP_MAXN && v == (c)) { const size_t v##_c = (c); stmt; } else
-#define HP_SPLIT(v, stmt) \
-	HP_SP_(0, v, stmt) HP_SP_(1, v, stmt) HP_SP_(2, v, stmt) HP_SP_(3, v, stmt) HP_SP_(4, v, stmt) \
-	HP_SP_(5, v, stmt) HP_SP_(6, v, stmt) HP_SP_(7, v, stmt) HP_SP_(8, v, stmt) HP_SP_(9, v, stmt) \
-	HP_SP_(10, v, stmt) HP_SP_(11, v, stmt) HP_SP_(12, v, stmt) HP_SP_(13, v, stmt) HP_SP_(14, v, stmt) \
-	HP_SP_(15, v, stmt) { const size_t v##_c = v; stmt; }
-
 /* release what the harness allocated for a list (for --memory-leak-check groups) */
 #define HP_FREE_RECS() do { for (size_t k_ = 0; k_ < HP_MAXN; k_++) free(R[k_]); } while (0)
 
